@@ -302,6 +302,10 @@ func (OracleC07) sharesWithin(x *Exec, pre, post *Snap, d DelSnap, pk posKey, to
 		sAfter = decRat(sAfterDec)
 	}
 	full := decRat(d.Shares)
+	if orphanedValidator(pre, pk.Denom) || degenerateAsset(pre, pk.Denom) {
+		x.Label("c07:ownerless-value-state")
+		return removed.Cmp(full) <= 0 // no meaningful share price (listed finding F-C04a); only the cap applies
+	}
 	// The module knows a validator's token value only to within TotalTokens*1e-18
 	// (a ratio rounded at 18 digits multiplied by the asset total): stated tolerance §2.6.
 	tol := tolFor(post.Assets[pk.Denom].TotalTokens.BigInt())
